@@ -9,7 +9,7 @@ use std::marker::PhantomData;
 use std::sync::Arc;
 
 use winter_air::proof::Proof;
-use winter_crypto::{hashers::{Blake3_256, Rp64_256, Sha3_256}, DefaultRandomCoin, ElementHasher, MerkleTree};
+use winter_crypto::{hashers::{Blake3_256, Rp64_256, RpJive64_256, Sha3_256}, DefaultRandomCoin, ElementHasher, MerkleTree};
 use winter_math::fields::{f128, f64};
 use winter_prover::Prover;
 use winter_utils::{ByteReader, Deserializable, Serializable, SliceReader};
@@ -106,7 +106,8 @@ fn mutate(rng: &mut Rng, bytes: &[u8]) -> (Vec<u8>, &'static str) {
 
 macro_rules! with_cfg {
     ($rng:expr, $body:ident, $($args:expr),*) => {
-        match $rng.below(4) {
+        match $rng.below(5) {
+            4 => $body::<f64::BaseElement, RpJive64_256>($($args,)* P64, c64, "f64", "rpj"),
             0 => $body::<f64::BaseElement, Blake3_256<f64::BaseElement>>($($args,)* P64, c64, "f64", "b3"),
             1 => $body::<f64::BaseElement, Rp64_256>($($args,)* P64, c64, "f64", "rp64"),
             2 => $body::<f128::BaseElement, Sha3_256<f128::BaseElement>>($($args,)* P128, c128, "f128", "sha"),
@@ -147,11 +148,35 @@ fn c05_one<B: BF + Send + Sync, H: ElementHasher<BaseField = B> + Sync + 'static
             });
         }
     }
+    if !c04 {
+        // header sweep: every byte of the serialized context (trace layout, length exponent, metadata
+        // length, modulus, the ten option bytes, constraint count) takes every value 0..=255
+        let ctx_len = h.proof.context.to_bytes().len();
+        for pos in 0..ctx_len.min(48) {
+            for v in 0..=255u8 {
+                if v == h.bytes[pos] { continue; }
+                // all values for the first eight bytes and the option bytes; boundary values elsewhere
+                let opt_start = ctx_len.saturating_sub(12);
+                if pos >= 8 && pos < opt_start && !(v < 3 || v > 252 || v == 0x7f || v == 0x80) { continue; }
+                let mut m = h.bytes.clone();
+                m[pos] = v;
+                let (pi, o) = (h.pub_in.clone(), h.opts.clone());
+                out.count("mutation:header-sweep");
+                out.case(&format!("{tag} {field} {hname} header:{pos}={v} {}", hex(&m)), "~^(ok|err-deser|err-verify)$", move || with_timeout(move || decode_verify::<B, H>(m, pi, &o).0));
+            }
+        }
+    }
     if c04 {
         // field-level edits: re-encode the proof with one component changed
         let mut variants: Vec<(&'static str, Proof)> = Vec::new();
         let mut p1 = h.proof.clone(); p1.pow_nonce = p1.pow_nonce.wrapping_add(1); variants.push(("nonce", p1));
         let mut p2 = h.proof.clone(); p2.num_unique_queries = p2.num_unique_queries.wrapping_add(1); variants.push(("unique-queries", p2));
+        // nonces that are congruent to the honest one modulo the field modulus / modulo 2^32 / that
+        // differ in the top bit: the whole 64-bit value must be bound by the transcript
+        let mut p3 = h.proof.clone(); p3.pow_nonce = p3.pow_nonce.wrapping_add(p as u64); variants.push(("nonce+p", p3));
+        let mut p4 = h.proof.clone(); p4.pow_nonce = p4.pow_nonce.wrapping_add(1 << 32); variants.push(("nonce+2^32", p4));
+        let mut p5 = h.proof.clone(); p5.pow_nonce ^= 1 << 63; variants.push(("nonce^2^63", p5));
+        let mut p6 = h.proof.clone(); p6.pow_nonce = p6.pow_nonce.wrapping_add(0xffff_ffff_0000_0001); variants.push(("nonce+p64", p6));
         for (name, pr) in variants {
             let b = pr.to_bytes();
             let (pi, o) = (h.pub_in.clone(), h.opts.clone());
